@@ -105,6 +105,11 @@ pub fn chk_result(cx: &Ctx) -> Vec<Viol> {
                 // order is unspecified: never an alarm
             }
         }
+        (t, TermResult::Count(n)) if t.is_zst() => {
+            if *n != out.len() {
+                vs.push(v("zst-collect", format!("{} of a zero-sized item type returned {} elements, the sequential chain yields {}", t.name(), n, out.len())));
+            }
+        }
         (Term::Count, TermResult::Count(n)) => {
             if *n != out.len() {
                 vs.push(v("count", format!("count returned {}, sequential chain yields {} elements", n, out.len())));
